@@ -10,7 +10,7 @@ from ..space import ops
 PID = "C13"
 LEVEL = "exploration"
 RULE = ("documents of two operations: every ordered pair of operation shapes {plain, 3 optional params, multi-content (overloads), streaming bytes, SSE, "
-        "long wrapped signature, body+params, json primary + streaming secondary status, streaming primary + json secondary} x every tag pattern {none, same tag, different tags, multi-tag, case variants, punctuation variants}; "
+        "long wrapped signature, body+params, json primary + streaming secondary status, streaming primary + json secondary} x every tag pattern {none, same tag, different tags, multi-tag, case variants, punctuation variants, PascalCase / camelCase / reserved-word / letter+digit / spaced spellings}; "
         "the generated package is imported in the runtime-only interpreter and client class / Protocol / mock are compared by introspection "
         "(inspect.signature, coroutine vs async-iterator nature, isinstance against the runtime_checkable Protocol, NotImplementedError from mocks, "
         "MockAPIClient vs APIClient tag properties). non-trivial = distinct (shape pair, tag pattern) documents")
@@ -18,7 +18,7 @@ ASSUMPTIONS = [
     "a Protocol member written as a plain `def` annotated AsyncIterator[...] counts as async-iterator nature (the correct typing spelling)",
     "annotations are compared as the strings found in __annotations__ (the three artefacts are rendered from the same text)",
 ]
-BOUND = {"quick": "9x9 shape pairs x 9 tag patterns = 729 documents", "thorough": "same + 3-operation documents over the 4 overload/stream shapes (576 more)"}
+BOUND = {"quick": "9x9 shape pairs x 15 tag patterns = 1215 documents", "thorough": "same + 3-operation documents over the 4 overload/stream shapes (576 more)"}
 CHUNK = 4
 
 P = ops.param
@@ -41,6 +41,9 @@ SHAPES = {
 TAG_PATTERNS = {
     "none": (None, None), "same": (["x"], ["x"]), "different": (["x"], ["y"]), "multi-first": (["x", "y"], ["x"]), "multi-second": (["x", "y"], ["y"]),
     "case": (["x"], ["X"]), "punct": (["x-y"], ["x_y"]), "space": (["x y"], ["x-y"]), "multi-both": (["x", "y"], ["y", "x"]),
+    # one consistent spelling per tag, in the styles real documents use (PascalCase, camelCase, reserved word, letter+digit, spaced)
+    "pascal": (["DataSources"], ["DataSources"]), "camel": (["apiKeys"], ["apiKeys"]), "reserved": (["models"], ["models"]),
+    "letter-digit": (["v1"], ["v1"]), "spaced-title": (["User Admin"], ["User Admin"]), "pascal+camel": (["DataSources"], ["apiKeys"]),
 }
 
 
